@@ -53,6 +53,8 @@ var c16Variants = []string{
 	"identity-swapped-with-binding",           // 29
 	"lib-valid",                               // 30 the library's own client with a correct auth function (control)
 	"lib-replayed-handshake",                  // 31 the library's client sends, on a new connection, the handshake it produced for an earlier one
+	"replayed-with-stale-timestamp",           // 32 handshake for another connection, correctly signed, whose signed timestamp is 31 s .. 1 h old (recorded earlier / lagging clock)
+	"replayed-with-future-timestamp",          // 33 the same with a timestamp ahead of the server's clock
 }
 
 type c16Conn struct {
@@ -297,6 +299,10 @@ func runC16(c c16Case) *vh.Outcome {
 			h.Signature = other.Signature
 		case "replayed-from-another-connection":
 			h = signedHandshake(id, domain, spare.binding)
+		case "replayed-with-stale-timestamp":
+			h = signedHandshakeAt(id, domain, spare.binding, time.Now().Unix()-int64([]int{31, 45, 61, 600, 3600}[cn.Arg%5]))
+		case "replayed-with-future-timestamp":
+			h = signedHandshakeAt(id, domain, spare.binding, time.Now().Unix()+int64([]int{31, 45, 600}[cn.Arg%3]))
 		case "rsa-identity-registered":
 			h = signedHandshake(w.rsa, "", rc.binding)
 		case "ed25519-identity-registered":
